@@ -335,7 +335,7 @@ KEY_BYTES = {ENTER: b"\r", BACKSPACE: b"\x7f", DELETE: b"\x1b[3~", LEFT: b"\x1b[
              DOWN: b"\x1b[B", CTRL_LEFT: b"\x1b[1;5D", CTRL_RIGHT: b"\x1b[1;5C"}
 
 
-def pty_session(exe, work, hist_file_text, keys, idx, slow=1.0):
+def pty_session(exe, work, hist_file_text, keys, idx, slow=1.0, history_file_full=False):
     """One `lace debug --minimal` (built WITHOUT the hooks) on a pseudo-terminal: crossterm's raw mode and key decoding, the
     drawing of the prompt and the history FILE are all real.  -> (lines of the history file afterwards, exit status or None,
     tail of the terminal output)"""
@@ -350,6 +350,12 @@ def pty_session(exe, work, hist_file_text, keys, idx, slow=1.0):
     pid, fd = pty.fork()
     if pid == 0:
         os.chdir(d)
+        if history_file_full:
+            # the history file cannot grow: every append fails (as on a full disk), the file was opened all right
+            import resource
+            signal.signal(signal.SIGXFSZ, signal.SIG_IGN)
+            sz = os.path.getsize(hf)
+            resource.setrlimit(resource.RLIMIT_FSIZE, (sz, sz))
         os.execve(exe, [exe, "debug", "--minimal", "p.asm"], env)
     out = bytearray()
 
@@ -406,7 +412,7 @@ def pty_session(exe, work, hist_file_text, keys, idx, slow=1.0):
     lines = open(hf, encoding="utf-8", errors="replace").read().split("\n")
     if lines and lines[-1] == "":
         lines.pop()
-    return lines, status, bytes(out[-600:]).decode("utf-8", "replace")
+    return lines, status, bytes(out if history_file_full else out[-600:]).decode("utf-8", "replace")
 
 
 def pty_stage(ctx, violations):
@@ -486,6 +492,31 @@ def pty_stage(ctx, violations):
                                    "exit_status": status, "history_file_after": [l if len(l) < 200 else "%r... (%d characters)" % (l[:20], len(l)) for l in lines],
                                    "model_final_history": [l if len(l) < 200 else "%r... (%d characters)" % (l[:20], len(l)) for l in (want or [])],
                                    "terminal_tail": tail[-300:]})
+    # a history FILE that cannot grow (every append fails): the line still belongs to the session's history - Up recalls it.
+    # Observed through what the debugger DOES with the submitted lines: `echo <marker>` prints the marker once per submission.
+    fh = ["registers"]
+    fkeys = [ch(c) for c in "echo qzv"] + [ENTER, UP, ENTER, UP, UP, DOWN, ENTER] + E + [ENTER]
+    fm = ctx.run_model([case_line(0, 1, 0, fh, fkeys)], tag="c20full")[0]
+    want_echo = 0
+    for ln in fm:
+        o = parse_obs(ln)
+    # submitted commands accumulate in the observation lines: count in the last one
+    lasto = [parse_obs(x) for x in fm if parse_obs(x)]
+    if lasto:
+        want_echo = sum(1 for sub in lasto[-1]["subs"] if "".join(chr(c) for c in sub) == "echo qzv")
+    got_echo = None
+    for slow in (1.0, 3.0, 8.0):
+        lines, status, text = pty_session(exe, work, "registers\n", fkeys, 900 + int(slow), slow=slow, history_file_full=True)
+        # the echo command prints its argument on a line of its own (the typed text is drawn after the prompt, never alone)
+        got_echo = sum(1 for l in text.replace("\r", "").split("\n") if l.strip() == "qzv")
+        if status == 0 and got_echo == want_echo:
+            break
+    n += 1
+    if status != 0 or got_echo != want_echo:
+        bad += 1
+        violations.append({"kind": "real-terminal-session", "fault": "the history file cannot grow (file-size limit = its size): every append fails",
+                           "history_file_lines": fh, "keys": [key_name(k) for k in fkeys], "exit_status": status,
+                           "times_the_echo_ran": got_echo, "times_the_model_submits_it": want_echo, "terminal_tail": text[-400:]})
     return {"sessions": n, "mismatches": bad, "slow_reruns": retried,
             "rule": "real `lace debug --minimal` on a pseudo-terminal (binary without hooks: crossterm raw mode and key decoding, prompt drawing, history file): history file afterwards = the model's final history, exit status 0; history files with blank lines included"}
 
